@@ -479,6 +479,54 @@ func materialStage(r *ev.Run, m int) {
 					}
 				}
 			})
+			// focus spheres of very small angular size (a lamp far away): the quadrature of checkLobe cannot resolve
+			// such caps, but everything is known in closed form, computed here without cancellation from the
+			// half angle a = asin(r/d): density inside = 1/sin^2(a/2), zero outside, samples uniform in the cap
+			add("focus-small", func() {
+				mat := &render3d.LambertMaterial{DiffuseColor: render3d.NewColor(1)}
+				point := model3d.XYZ(0.3, -0.4, 0.2)
+				for _, ratio := range []float64{1e-3, 1e-4, 3e-5} {
+					dist := 2.5
+					sf := &render3d.SphereFocusPoint{Center: point.Sub(d.Scale(dist)), Radius: ratio * dist}
+					c := rcase{"SphereFocusPoint", fmt.Sprintf("radius/distance=%g", ratio), arr(n), arr(d), nil}
+					axis := point.Sub(sf.Center).Normalize()
+					a := math.Asin(ratio)
+					capS := math.Sin(a/2) * math.Sin(a/2) // (1 - cos a)/2
+					ss := enumerate(m, 2, func(g *rand.Rand) interface{} { return sf.SampleFocus(g, mat, point, n, d) })
+					r.Eval(len(ss))
+					best := math.Inf(1)
+					for di := 0; di < 2; di++ {
+						for _, flip := range []bool{false, true} {
+							worst := 0.0
+							for _, smp := range ss {
+								dir := smp.out.(c3)
+								th := math.Asin(math.Min(1, dir.Cross(axis).Norm()))
+								frac := math.Sin(th/2) * math.Sin(th/2) / capS
+								w := smp.draws[di]
+								if flip {
+									w = 1 - w
+								}
+								worst = math.Max(worst, math.Abs(frac-w))
+							}
+							best = math.Min(best, worst)
+						}
+					}
+					if !(best <= 1e-4) {
+						r.Violation("SphereFocusPoint/small-cap-sampling", fmt.Sprintf("radius/distance %g: sampled directions are not uniform in the cap of half angle %g (worst deviation of the cap fraction from the draw %g)", ratio, a, best), c)
+						continue
+					}
+					in := dirAt(axis, math.Cos(a/2), 1.3)
+					out := dirAt(axis, math.Cos(3*a), 0.4)
+					want := 1 / capS
+					if got := sf.FocusDensity(mat, point, n, in, d); !(math.Abs(got-want) <= 1e-4*want) {
+						r.Violation("SphereFocusPoint/small-cap-density", fmt.Sprintf("radius/distance %g: density inside the cap is %g, the reciprocal of the cap's share of the sphere is %g", ratio, got, want), c)
+					}
+					if got := sf.FocusDensity(mat, point, n, out, d); got != 0 {
+						r.Violation("SphereFocusPoint/small-cap-density", fmt.Sprintf("radius/distance %g: density %g at three half angles from the axis, outside the cap", ratio, got), c)
+					}
+					r.NontrivialAdd(1)
+				}
+			})
 			// refraction: delta lobes
 			for _, ior := range []float64{0.7, 1.3, 2.4} {
 				for _, spec := range []bool{false, true} {
